@@ -3,23 +3,58 @@ import CpProofs.Hello
   C02 for the TLS handshake messages with structured payloads: parsing untrusted bytes fails only
   with the documented parse errors.
 
-  The model reports a class it does not cover (`TlsHandshakeCertificateRequest`; the SNI, ALPN,
-  key-share, … extension classes) with the pseudo-error `crash "UNMODELLED"`, so the law is stated
-  as "the only crash kind reachable is UNMODELLED".  In particular the fuel-exhaustion crash
-  `"NonTermination"` of the item loops is unreachable: every item parser consumes at least one byte.
+  The model reports what it does not cover (a server name the idna codec would not leave unchanged)
+  with the pseudo-error `crash "UNMODELLED"`, so the law is stated as "the only crash kind reachable
+  is UNMODELLED".  On the server side the code HAS a crash that the model reproduces: the SCT list
+  (`TlsExtensionSignedCertificateTimestampServer`) raises `TypeError` for the all-ones timestamp; the
+  full statement is kept as a `def … : Prop` with a witness, and what holds is proved.  The
+  fuel-exhaustion crash `"NonTermination"` of the item loops is unreachable: every item parser
+  consumes at least one byte.
 -/
 namespace Cp.C02
 open Cp Cp.Codec Cp.Tls Cp.Hello
 
+/-- the client side: the only crash kind is the model's boundary marker (a server name the idna
+codec would not leave unchanged) -/
 theorem tlsClientHello : NoCrashButUnmodelled clientHelloCodec := clientHello_noCrash
 
-theorem tlsServerHello (typ : Nat) : NoCrashButUnmodelled (serverHelloCodec typ) := serverHello_noCrash typ
+/-- the full statement for the server side — FALSE of the code: the SCT list's constructor raises a
+`TypeError` for the "no timestamp" sentinel (`tlsServerHello_fails`) -/
+def tlsServerHello_full : Prop := ∀ typ, NoCrashButUnmodelled (serverHelloCodec typ)
+
+/-- a ServerHello whose signed_certificate_timestamp extension carries an SCT with the all-ones
+timestamp: `parse_timestamp` returns `None`, the attrs validator of `SignedCertificateTimestamp`
+raises `TypeError` -/
+def sctSentinelHello : Bytes :=
+  let sct : Bytes := [0] ++ List.replicate 32 0x11 ++ List.replicate 8 0xff ++ [0, 0, 4, 3, 0, 0]
+  let list : Bytes := [0, 47] ++ sct
+  let ext : Bytes := [0, 18, 0, 51, 0, 49] ++ list
+  let body : Bytes := [3, 3] ++ List.replicate 32 7 ++ [0, 0x13, 0x01, 0] ++ [0, 55] ++ ext
+  [2, 0, 0, 95] ++ body
+
+theorem tlsServerHello_fails : ¬ tlsServerHello_full := by
+  intro h
+  have h1 : (serverHelloCodec 2).parse sctSentinelHello = .error (.crash "TypeError") := by decide +kernel
+  exact absurd (h 2 _ _ h1) (by decide)
+
+/-- what holds: besides the boundary marker only that `TypeError` is reachable -/
+theorem tlsServerHello_partial (typ : Nat) : NoCrashButTypeError (serverHelloCodec typ) := serverHello_noCrash typ
 
 /-- the certificate message touches no unmodelled class: no crash at all -/
 theorem tlsCertificateMessage : NoCrash certificateCodec := certificate_noCrash
 
-/-- `TlsHandshakeMessageVariant` -/
-theorem tlsHandshakeVariant : NoCrashButUnmodelled handshakeCodec := handshake_noCrash
+/-- `TlsHandshakeCertificateRequest`: no crash at all -/
+theorem tlsCertificateRequest : NoCrash certificateRequestCodec := certificateRequest_noCrash
+
+/-- `TlsHandshakeMessageVariant`, full statement — false for the same reason -/
+def tlsHandshakeVariant_full : Prop := NoCrashButUnmodelled handshakeCodec
+
+theorem tlsHandshakeVariant_fails : ¬ tlsHandshakeVariant_full := by
+  intro h
+  have h1 : handshakeCodec.parse sctSentinelHello = .error (.crash "TypeError") := by decide +kernel
+  exact absurd (h _ _ h1) (by decide)
+
+theorem tlsHandshakeVariant_partial : NoCrashButTypeError handshakeCodec := handshake_noCrash
 
 /-- the item loops of the vectors inside the hello messages always terminate -/
 theorem tlsHandshakeVariant_terminates (b : Bytes) :
@@ -28,12 +63,35 @@ theorem tlsHandshakeVariant_terminates (b : Bytes) :
   have := handshake_noCrash b _ h
   exact absurd this (by decide)
 
-/-- every error of one position of the extension vector is a documented one or the marker -/
+/-- every error of one position of the extension vector is a documented one, the marker, or — only
+when the variant list has the SCT class — that class's `TypeError` -/
 theorem tlsExtensionItem {variants : List (String × Nat)} {bs : Bytes} {e : PErr}
-    (h : parseExt variants bs = .error e) : Benign e ∨ e = unmodelled := parseExt_err h
+    (h : parseExt variants bs = .error e) :
+    Benign e ∨ e = unmodelled ∨ (e = .crash "TypeError" ∧ hasSct variants = true) := by
+  rcases parseExt_err h with (hb | hu) | ht
+  · exact .inl hb
+  · exact .inr (.inl hu)
+  · exact .inr (.inr ht)
+
+/-- the client variant has no SCT class: no `TypeError` on that side -/
+theorem tlsExtensionItemClient {bs : Bytes} {e : PErr}
+    (h : parseExt Gen.extVariantsClient bs = .error e) : Benign e ∨ e = unmodelled := by
+  rcases tlsExtensionItem h with hb | hu | ⟨_, hs⟩
+  · exact .inl hb
+  · exact .inr hu
+  · rw [client_has_no_sct] at hs; cases hs
 
 /-! non-vacuity: the marker is reachable, and so are the documented errors -/
-example : handshakeCodec.parse [13, 0, 0, 0] = .error (.crash "UNMODELLED") := by decide +kernel
+
+/-- a ClientHello with a server_name extension whose host name is `xn--a` (an ACE label: the idna
+codec would decode it) -/
+def aceHello : Bytes :=
+  let ext : Bytes := [0, 0, 0, 10, 0, 8, 0, 0, 5, 0x78, 0x6e, 0x2d, 0x2d, 0x61]
+  let body : Bytes := [3, 3] ++ List.replicate 32 7 ++ [0, 0, 2, 0x13, 0x01, 1, 0] ++ [0, 14] ++ ext
+  [1, 0, 0, 57] ++ body
+
+example : handshakeCodec.parse aceHello = .error (.crash "UNMODELLED") := by decide +kernel
+example : handshakeCodec.parse [13, 0, 0, 0] = .error (.notEnough 1) := by decide +kernel
 example : handshakeCodec.parse [1, 0, 0, 1, 3] = .error (.notEnough 1) := by decide +kernel
 example : handshakeCodec.parse [99, 0, 0, 0] = .error .invalidValue := by decide +kernel
 
